@@ -205,3 +205,25 @@ func VerifC07_LongIgnoresMode() {
 	}
 	vReach("compared")
 }
+
+// SingleDash with bytes that are not valid UTF-8 in the attached rest (concrete
+// byte patterns and surroundings; the symbolic harnesses stay inside valid UTF-8): `-xREST` still equals `--x=REST`
+// byte for byte.
+func VerifC07_SingleDashRawBytes() {
+	lx := c07sdLetters[vInt("x", 0, 4)]
+	vAssume(lx == "s" || lx == "é") // the two string-valued letters
+	bad := []string{"\xff", "\x80", "\xc3", "\xe6\x97", "\xed\xa0\x80", "\xf8"}[vInt("bad", 0, 5)]
+	pre := []string{"", "a"}[vInt("pre", 0, 1)]
+	post := []string{"", "b", "=c"}[vInt("post", 0, 2)]
+	r := pre + bad + post
+	x, y := c07define(2), c07define(2)
+	vPhase("run")
+	remX, errX := x.opt.Parse([]string{"-" + lx + r})
+	remY, errY := y.opt.Parse([]string{"--" + lx + "=" + r})
+	vObserve("errX", errX)
+	vObserve("s", *x.s)
+	vObserve("e", *x.e)
+	vAssert("rawbytes/reference-takes-the-value", errY == nil && (*y.s == r || *y.e == r))
+	sameOutcome(x, y, remX, remY, errX, errY)
+	vReach("compared")
+}
